@@ -263,7 +263,7 @@ def run_model(cases, results, what="model", tag="drv"):
                 continue
             keys.append((ci, ki))
             w = what
-            if cout.get("outcome") == "ok" and (cout["result"].get("metrics") or {}).get("status") == "modified":
+            if cout.get("outcome") == "ok" and cout["result"].get("content"):
                 w += ",modified"
             blocks.append(driver_block("%d.%d" % (ci, ki), r["config"], r["prefix"], cin, cout, w, raw=c.get("config")))
     if not blocks:
